@@ -394,6 +394,10 @@ class MinMaxAggregator:
 
         # 1. create a new domain for the complete elem.condition + lits_with_vars
         new_name = f"__{direction}_{number_of_aggregate}_{str(rule.location.begin.line)}"
+        while any(pred.name == new_name for pred in self.unique_names.predicates):
+            # several aggregates on one line, or a name the program already uses
+            number_of_aggregate += 1
+            new_name = f"__{direction}_{number_of_aggregate}_{str(rule.location.begin.line)}"
         new_predicate = Predicate(new_name, 1)
 
         head = SymbolicAtom(Function(LOC, new_name, [weight], False))
@@ -428,6 +432,7 @@ class MinMaxAggregator:
             )
             return [rule]
 
+        self.unique_names.predicates.add(new_predicate)
         ret = self._create_aggregate_replacement(agg, elem, rest_vars_sorted, new_predicate, lits_with_vars)
 
         # 3. replace original rule or minimize
